@@ -643,7 +643,7 @@ func addLeg(t *testing.T, leg *ev.Leg) {
 			}
 			faultAll = true
 		}
-		pinFails := rapid.IntRange(0, 9).Draw(t, "pinFails") == 0
+		pinFails := rapid.IntRange(0, 9).Draw(t, "pinFails") == 0 && !forceHuge // the huge leg is about the shard partition: it must get that far
 		cluster.failPin = pinFails
 
 		params := api.DefaultAddParams()
@@ -902,7 +902,7 @@ func addLeg(t *testing.T, leg *ev.Leg) {
 		if flushAligned {
 			classes = append(classes, "flush-fault-aligned")
 		}
-		leg.Case(desc, nt, classes...)
+		leg.Case(desc, nt || forceHuge, classes...)
 	})
 }
 
